@@ -15,8 +15,8 @@ import ast
 import os
 
 from ..common import Report, REPO, AnalysisError, src
-from ..match import match_expr, match_stmts, strip_doc
-from ..minieval import ev, Undecidable
+from ..match import match_expr, match_stmts, strip_doc, canonical, inline_temps
+from ..minieval import ev, Undecidable, Unsupported
 
 BASE = 'stdnum'
 
@@ -26,8 +26,14 @@ def load(relpath):
     if not os.path.exists(path):
         raise AnalysisError('%s vanished' % relpath)
     with open(path, encoding='utf-8') as fh:
-        tree = ast.parse(fh.read())
+        tree = canonical(ast.parse(fh.read()))
     funcs = {n.name: n for n in tree.body if isinstance(n, ast.FunctionDef)}
+    # temporaries of a loop body are substituted into the state update, so that one pattern covers `t = f(n); c = g(c, t)`
+    for fn in funcs.values():
+        outer = {t.id for st in fn.body if isinstance(st, ast.Assign) for t in st.targets if isinstance(t, ast.Name)} | {a.arg for a in fn.args.args}
+        for st in ast.walk(fn):
+            if isinstance(st, (ast.For, ast.While)):
+                st.body = inline_temps(st.body, keep=outer)
     consts = {}
     for n in tree.body:
         if isinstance(n, ast.Assign) and len(n.targets) == 1 and isinstance(n.targets[0], ast.Name):
@@ -50,6 +56,23 @@ def defaults(fn):
     return out
 
 
+def helper_hooks(funcs, consts=None):
+    """Private one-expression helpers of the module (`def _double(check, modulus): return <expr>`) as evaluator hooks."""
+    hooks = {}
+    for name, fn in funcs.items():
+        body = strip_doc(fn.body)
+        if name.startswith('_') and len(body) == 1 and isinstance(body[0], ast.Return) and body[0].value is not None \
+                and not fn.args.vararg and not fn.args.kwarg and not fn.args.kwonlyargs and not fn.args.defaults:
+            params = [a.arg for a in fn.args.args]
+
+            def call(*args, _p=params, _e=body[0].value, _n=name):
+                if len(args) != len(_p):
+                    raise Undecidable('%s() called with %d arguments' % (_n, len(args)))
+                return ev(_e, dict(consts or {}, **dict(zip(_p, args))), hooks)
+            hooks[name] = call
+    return hooks
+
+
 def need(fn_map, name, relpath):
     if name not in fn_map:
         raise AnalysisError('%s: function %s() vanished' % (relpath, name))
@@ -66,7 +89,7 @@ def validate_wiring(rep, relpath, funcs, extra_args=''):
     ok_shape = False
     # optional emptiness gate first
     stmts = list(body)
-    if stmts and isinstance(stmts[0], ast.If) and match_stmts('if not bool(%s):\n    raise InvalidFormat()' % num, [stmts[0]]) is not None:
+    if stmts and isinstance(stmts[0], ast.If) and match_stmts('if not %s:\n    raise InvalidFormat()' % num, [stmts[0]]) is not None:
         stmts = stmts[1:]
     if len(stmts) == 3 and isinstance(stmts[0], ast.Try):
         tr = stmts[0]
@@ -169,6 +192,7 @@ def iso_fold(rep, relpath, alphabets, T_expected_one=True, want_trans=False, lab
     gbody = strip_doc(gen.body)
     gdfl = defaults(gen)
     results = {}
+    H = helper_hooks(funcs, consts)
     for alpha in alphabets:
         # environment of pre-assignments
         env = {}
@@ -180,8 +204,8 @@ def iso_fold(rep, relpath, alphabets, T_expected_one=True, want_trans=False, lab
             symbols = list(alpha)
         try:
             for st in pre:
-                env[st.targets[0].id] = ev(st.value, env)
-            init = ev(b['E_init'], env)
+                env[st.targets[0].id] = ev(st.value, env, H)
+            init = ev(b['E_init'], env, H)
         except Undecidable as e:
             raise AnalysisError('%s: cannot evaluate the fold prologue: %s' % (relpath, e))
         cvar, nvar = b['V_c'].id, b['V_n'].id
@@ -196,7 +220,9 @@ def iso_fold(rep, relpath, alphabets, T_expected_one=True, want_trans=False, lab
                 e2 = dict(env)
                 e2[cvar], e2[nvar] = s, a
                 try:
-                    t = ev(b['E_step'], e2)
+                    t = ev(b['E_step'], e2, H)
+                except Unsupported as e:
+                    raise AnalysisError('%s:%d the step %s uses a construct the evaluator does not know: %s' % (relpath, fn.lineno, src(b['E_step']), e))
                 except Undecidable as e:
                     rep.fail('ALG.step-total', relpath, 'checksum', src(b['E_step']), fn.lineno,
                              'step is not defined for state %r and alphabet symbol %r (%s)' % (s, a, e))
@@ -215,7 +241,7 @@ def iso_fold(rep, relpath, alphabets, T_expected_one=True, want_trans=False, lab
                         e2 = dict(env)
                         e2[cvar], e2[nvar] = s, a
                         try:
-                            delta[(s, a)] = ev(b['E_step'], e2)
+                            delta[(s, a)] = ev(b['E_step'], e2, H)
                         except Undecidable:
                             delta[(s, a)] = None
         fsm = FSM(sorted(states), symbols)
@@ -232,7 +258,7 @@ def iso_fold(rep, relpath, alphabets, T_expected_one=True, want_trans=False, lab
             genv[gen.args.args[1].arg] = alpha if alpha is not None else gdfl.get(gen.args.args[1].arg)
         gnum = gen.args.args[0].arg
         for s in sorted(states):
-            hooks = {'checksum': (lambda *a, _s=s, **k: _s)}
+            hooks = dict(H, checksum=(lambda *a, _s=s, **k: _s))
             e2 = dict(genv)
             e2[gnum] = ''
             try:
@@ -534,14 +560,14 @@ def luhn(rep, ns):
     body = strip_doc(ck.body)
     # an optional fast path `if <condition on the alphabet>: <same shape with other expressions>` in front of the general code
     fast = body[0] if body and isinstance(body[0], ast.If) and not body[0].orelse else None
-    pat = ('%s = tuple(E_val for V_i in reversed(str(%s)))\n'
-           'return (sum(%s[::2]) + sum(E_dbl for V_j in %s[1::2])) %% E_mod') % (num, num, num, num)
+    pat = ('V_seq = tuple(E_val for V_i in reversed(str(%s)))\n'
+           'return (sum(V_seq[::2]) + sum(E_dbl for V_j in V_seq[1::2])) %% E_mod') % num
 
     def shape(stmts):
         pre = []
         k = 0
         while k < len(stmts) and isinstance(stmts[k], ast.Assign) and len(stmts[k].targets) == 1 and isinstance(stmts[k].targets[0], ast.Name) \
-                and stmts[k].targets[0].id != num:
+                and not (isinstance(stmts[k].value, ast.Call) and src(stmts[k].value.func) == 'tuple'):
             pre.append(stmts[k])
             k += 1
         m_ = match_stmts(pat, stmts[k:])
@@ -619,11 +645,11 @@ def verhoeff(rep):
     funcs, consts = load(relpath)
     ck = need(funcs, 'checksum', relpath)
     num = ck.args.args[0].arg
-    pat = ('%s = tuple(int(V_n) for V_n in reversed(str(%s)))\n'
+    pat = ('V_seq = tuple(int(V_n) for V_n in reversed(str(%s)))\n'
            'V_c = K_init\n'
-           'for V_i, V_m in enumerate(%s):\n'
+           'for V_i, V_m in enumerate(V_seq):\n'
            '    V_c = V_mt[V_c][V_pt[V_i %% K_p][V_m]]\n'
-           'return V_c') % (num, num, num)
+           'return V_c') % num
     b = match_stmts(pat, strip_doc(ck.body))
     if b is None:
         raise AnalysisError('%s:%d checksum() is not the reversed table fold the rule understands' % (relpath, ck.lineno))
